@@ -19,7 +19,9 @@ FACTORS = (None, 0, 1.3, 2.4, 2.5, 2.51, 12.0, 30.0, 64.0, 99.0)
 def plan(tier, seed):
     n = 6000 if tier == "quick" else 60000
     kinds = ["single", "single", "inplay", "two_markets_seq", "two_markets_event", "no_factors", "single", "reopen_after_close"]
-    return [{"seed": seed, "idx": i, "kind": kinds[i % len(kinds)]} for i in range(n)]
+    # directed case for the listed finding C09-sp-lay-matched-late-withdrawal (a MARKET_ON_CLOSE lay matched at the starting price,
+    # then a runner withdrawn in play with a factor >= 2.5)
+    return [{"seed": seed, "idx": 0, "kind": "inplay", "force_moc_lay": True}] + [{"seed": seed, "idx": i, "kind": kinds[i % len(kinds)]} for i in range(1, n)]
 
 
 def _one_market(rng, mid, kind, sels=None, t0=G.T0, factor=None, victim_i=None, event_id="30000001"):
@@ -87,7 +89,7 @@ def build(desc):
         if ev:
             case["event_processing"] = True
     else:
-        mfs.append(_one_market(rng, "1.2%08d" % rng.randint(0, 99999), kind, factor="rand"))
+        mfs.append(_one_market(rng, "1.2%08d" % rng.randint(0, 99999), kind, factor=12.0 if desc.get("force_moc_lay") else "rand"))
     snaps = {mf.market_id: G.read_lines(mf.lines) for mf in mfs}
     actions = []
     for mf in mfs:
@@ -99,6 +101,11 @@ def build(desc):
             {"n_orders": (4, 10), "types": ("LIMIT",) * 5 + ("LOC", "MOC", "MOC"), "modes": ("cross", "cross", "at", "rest", "join"), "p_cancel": 0.3, "p_update": 0.1, "p_replace": 0.15, "p_any_step": 0.0, "p_removed_runner": 0.1, "sizes": (2.0, 2.37, 5.0, 10.0)},
             ref_prefix="m%s_" % mf.market_id[-2:],
         )
+    if desc.get("force_moc_lay"):
+        mf = mfs[0]
+        last = snaps[mf.market_id][-1]
+        keep = [k_ for k_, r in last["runners"].items() if r["status"] in ("WINNER", "LOSER", "PLACED")]
+        actions.insert(0, {"m": mf.market_id, "at": 0, "op": "place", "ref": "fml", "sel": list(keep[0]), "side": "LAY", "otype": "MOC", "liability": 10.0})
     case["markets"] = [{"id": mf.market_id, "text": mf.text()} for mf in mfs]
     case["strategies"] = [{"name": "S0", "actions": actions}]
     return case, snaps
